@@ -1,5 +1,263 @@
+(* C15 - lemmas: the tag loop, soundness and completeness of check_auth_event against
+   valid_answer, the AUTH branch keeps the token unless authenticate returned, replay
+   across connections. *)
 From NR Require Import Lib.Base Lib.BaseFacts Lib.PyRt C15.Rt Gen.Auth C15.Model C15.Spec.
 From Coq Require Import ZifyBool.
 Open Scope Z_scope.
-Lemma placeholder : auth_kind = 22242.
+
+(* parse_options turns every configured value into a list of whole URLs *)
+Lemma parse_valid_urls_list v : parse_valid_urls v = UList (urls_as_list v).
+Proof. destruct v; reflexivity. Qed.
+
+Lemma relay_neq_challenge : str_eqb (pys "challenge") (pys "relay") = false.
 Proof. reflexivity. Qed.
+
+Lemma tag_named_cons (n : string) x rest : tag_named n (x :: rest) <-> x = pys n.
+Proof. unfold tag_named. split; [intros [r H]; congruence | intros ->; eauto]. Qed.
+Lemma tag_named_nil (n : string) : ~ tag_named n [].
+Proof. intros [r H]. discriminate. Qed.
+
+(* ---------- the tag loop over a list of whole URLs ---------- *)
+Definition relay_ok (l : list pystr) (t : tag) : Prop := tag_named "relay" t -> exists v, tag_value t v /\ In v l.
+Definition chal_ok (ch : pystr) (t : tag) : Prop := tag_named "challenge" t -> tag_value t ch.
+
+Lemma scan_ok l ch tags : forall fr fc fr' fc',
+  scan_tags (UList l) ch tags fr fc = (COk, fr', fc') ->
+  Forall (relay_ok l) tags /\ Forall (chal_ok ch) tags /\ Forall (fun t => t <> []) tags /\
+  (fr' = true <-> fr = true \/ exists t, In t tags /\ tag_named "relay" t) /\
+  (fc' = true <-> fc = true \/ exists t, In t tags /\ tag_named "challenge" t).
+Proof.
+  induction tags as [|t r IH]; intros fr fc fr' fc' H; simpl in H.
+  - injection H as <- <-. repeat split; try constructor; try tauto; intros [H|[t [[] _]]]; exact H.
+  - destruct t as [|n rest]; [discriminate|].
+    destruct (str_eqb n (pys "relay")) eqn:E1.
+    + apply str_eqb_eq in E1. subst n. destruct rest as [|v rest']; [discriminate|].
+      unfold auth_url_bad, url_in in H. destruct (mem_str v l) eqn:M; simpl in H; [|discriminate].
+      apply mem_str_In in M. destruct (IH _ _ _ _ H) as (R & C & N & F1 & F2).
+      split; [constructor; [intros _; exists v; split; [exists (pys "relay"), rest'; reflexivity | exact M] | exact R]|].
+      split; [constructor; [intros T; apply tag_named_cons in T; discriminate | exact C]|].
+      split; [constructor; [discriminate | exact N]|].
+      split.
+      * rewrite F1. split; [intros _; right; exists (pys "relay" :: v :: rest'); split; [left; reflexivity | apply tag_named_cons; reflexivity]|auto].
+      * rewrite F2. split; [intros [Hc|[t [Ht Tn]]]; [auto | right; exists t; split; [right; exact Ht | exact Tn]]|].
+        intros [Hc|[t [[<-|Ht] Tn]]]; [auto | apply tag_named_cons in Tn; discriminate | right; exists t; auto].
+    + destruct (str_eqb n (pys "challenge")) eqn:E2.
+      * apply str_eqb_eq in E2. subst n. destruct rest as [|v rest']; [discriminate|].
+        destruct (str_eqb v ch) eqn:V; simpl in H; [|discriminate]. apply str_eqb_eq in V. subst v.
+        destruct (IH _ _ _ _ H) as (R & C & N & F1 & F2).
+        split; [constructor; [intros T; apply tag_named_cons in T; discriminate | exact R]|].
+        split; [constructor; [intros _; exists (pys "challenge"), rest'; reflexivity | exact C]|].
+        split; [constructor; [discriminate | exact N]|].
+        split.
+        -- rewrite F1. split; [intros [Hc|[t [Ht Tn]]]; [auto | right; exists t; split; [right; exact Ht | exact Tn]]|].
+           intros [Hc|[t [[<-|Ht] Tn]]]; [auto | apply tag_named_cons in Tn; discriminate | right; exists t; auto].
+        -- rewrite F2. split; [intros _; right; exists (pys "challenge" :: ch :: rest'); split; [left; reflexivity | apply tag_named_cons; reflexivity]|auto].
+      * apply str_eqb_neq in E1, E2. destruct (IH _ _ _ _ H) as (R & C & N & F1 & F2).
+        split; [constructor; [intros T; apply tag_named_cons in T; contradiction | exact R]|].
+        split; [constructor; [intros T; apply tag_named_cons in T; contradiction | exact C]|].
+        split; [constructor; [discriminate | exact N]|].
+        split.
+        -- rewrite F1. split; [intros [Hc|[t [Ht Tn]]]; [auto | right; exists t; split; [right; exact Ht | exact Tn]]|].
+           intros [Hc|[t [[<-|Ht] Tn]]]; [auto | apply tag_named_cons in Tn; contradiction | right; exists t; auto].
+        -- rewrite F2. split; [intros [Hc|[t [Ht Tn]]]; [auto | right; exists t; split; [right; exact Ht | exact Tn]]|].
+           intros [Hc|[t [[<-|Ht] Tn]]]; [auto | apply tag_named_cons in Tn; contradiction | right; exists t; auto].
+Qed.
+
+Lemma scan_complete l ch tags : forall fr fc,
+  Forall (relay_ok l) tags -> Forall (chal_ok ch) tags -> Forall (fun t => t <> []) tags ->
+  exists fr' fc', scan_tags (UList l) ch tags fr fc = (COk, fr', fc').
+Proof.
+  induction tags as [|t r IH]; intros fr fc R C N; simpl; [eauto|].
+  inversion R as [|? ? Rt Rr]; inversion C as [|? ? Ct Cr]; inversion N as [|? ? Nt Nr]; subst.
+  destruct t as [|n rest]; [contradiction|].
+  destruct (str_eqb n (pys "relay")) eqn:E1.
+  - apply str_eqb_eq in E1. subst n. destruct (Rt (proj2 (tag_named_cons "relay" _ _) eq_refl)) as [v [[n' [rest' E]] Hv]].
+    injection E as <- ->. unfold auth_url_bad, url_in. apply mem_str_In in Hv. rewrite Hv. simpl. apply IH; assumption.
+  - destruct (str_eqb n (pys "challenge")) eqn:E2.
+    + apply str_eqb_eq in E2. subst n. destruct (Ct (proj2 (tag_named_cons "challenge" _ _) eq_refl)) as [n' [rest' E]].
+      injection E as <- ->. rewrite str_eqb_refl. simpl. apply IH; assumption.
+    + apply IH; assumption.
+Qed.
+
+(* ---------- check_auth_event against the statement ---------- *)
+Lemma check_sound now l ch ev :
+  check_auth_event now (UList l) ch ev = COk -> valid_answer now l ch ev.
+Proof.
+  unfold check_auth_event, valid_answer. destruct (a_verify ev); try discriminate.
+  unfold auth_kind_bad, auth_since, auth_is_too_old, auth_is_too_new, auth_tags_missing.
+  destruct (a_kind ev =? 22242) eqn:K; cbn [negb]; [|discriminate].
+  match goal with |- context [?a >=? ?b] => destruct (a >=? b) eqn:O end; [discriminate|].
+  match goal with |- context [?a <=? ?b] => destruct (a <=? b) eqn:Nw end; [discriminate|].
+  destruct (scan_tags (UList l) ch (a_tags ev) false false) as [[r fr] fc] eqn:S.
+  destruct r; try discriminate.
+  destruct (fr && fc) eqn:B; simpl; [|discriminate]. intros _. apply andb_prop in B. destruct B as [-> ->].
+  destruct (scan_ok _ _ _ _ _ _ _ S) as (R & C & _ & F1 & F2).
+  rewrite Forall_forall in R, C.
+  split; [reflexivity|]. split; [lia|]. split; [lia|].
+  split; [destruct (proj1 F1 eq_refl) as [H|H]; [discriminate | exact H]|].
+  split; [intros t Ht Tn; exact (R t Ht Tn)|].
+  split; [destruct (proj1 F2 eq_refl) as [H|H]; [discriminate | exact H]|].
+  intros t Ht Tn. exact (C t Ht Tn).
+Qed.
+
+Lemma check_complete now l ch ev :
+  valid_answer now l ch ev -> Forall (fun t => t <> []) (a_tags ev) -> check_auth_event now (UList l) ch ev = COk.
+Proof.
+  unfold valid_answer. intros (V & K & T & [tr [Hr Nr]] & R & [tc [Hc Nc]] & C) N.
+  unfold check_auth_event. rewrite V.
+  unfold auth_kind_bad, auth_since, auth_is_too_old, auth_is_too_new, auth_tags_missing.
+  replace (a_kind ev =? 22242) with true by lia. cbn [negb].
+  match goal with |- context [?a >=? ?b] => replace (a >=? b) with false by lia end.
+  match goal with |- context [?a <=? ?b] => replace (a <=? b) with false by lia end.
+  destruct (scan_complete l ch (a_tags ev) false false) as [fr [fc S]].
+  { apply Forall_forall. intros t Ht Tn. auto. }
+  { apply Forall_forall. intros t Ht Tn. auto. }
+  { exact N. }
+  rewrite S. destruct (scan_ok _ _ _ _ _ _ _ S) as (_ & _ & _ & F1 & F2).
+  assert (fr = true) as -> by (apply F1; right; exists tr; auto).
+  assert (fc = true) as -> by (apply F2; right; exists tc; auto). reflexivity.
+Qed.
+
+Section Conn.
+Variable roles_of : pystr -> roleset.
+Variable configured : urls.
+
+(* a token is handed out only for a fresh, correctly signed answer to this challenge that names
+   a configured URL (as a whole string), and it carries the signer's pubkey *)
+Lemma auth_sound now ch p t :
+  authenticate roles_of configured now ch p = Authenticated t ->
+  exists ev, p = PEvent ev /\ valid_answer now (urls_as_list configured) ch ev /\
+             t_pubkey t = a_pubkey ev /\ t_roles t = roles_of (a_pubkey ev).
+Proof.
+  unfold authenticate. destruct p as [| |ev]; try discriminate.
+  rewrite parse_valid_urls_list.
+  destruct (check_auth_event now (UList (urls_as_list configured)) ch ev) eqn:C; try discriminate.
+  intros H. injection H as <-. exists ev. split; [reflexivity|]. split; [apply check_sound; exact C|]. split; reflexivity.
+Qed.
+
+Lemma auth_complete now ch ev :
+  valid_answer now (urls_as_list configured) ch ev -> Forall (fun t => t <> []) (a_tags ev) ->
+  exists t, authenticate roles_of configured now ch (PEvent ev) = Authenticated t /\ t_pubkey t = a_pubkey ev.
+Proof.
+  intros V N. unfold authenticate. rewrite parse_valid_urls_list, (check_complete _ _ _ _ V N). eexists. split; reflexivity.
+Qed.
+
+(* any AUTH that does not authenticate leaves the identity as it was; a crash closes the connection *)
+Lemma failed_auth_keeps_token enabled ch c m :
+  (forall t, authenticate roles_of configured (fst m) ch (snd m) <> Authenticated t) ->
+  c_token (handle_auth roles_of configured enabled ch c m) = c_token c.
+Proof.
+  intros H. unfold handle_auth. destruct (negb (c_open c)); [reflexivity|]. destruct (negb enabled); [reflexivity|].
+  destruct (authenticate roles_of configured (fst m) ch (snd m)) eqn:A; try reflexivity. destruct (H t eq_refl).
+Qed.
+
+Lemma handle_auth_token enabled ch c m t :
+  c_token (handle_auth roles_of configured enabled ch c m) = Some t ->
+  c_token c = Some t \/ authenticate roles_of configured (fst m) ch (snd m) = Authenticated t.
+Proof.
+  unfold handle_auth. destruct (negb (c_open c)); [auto|]. destruct (negb enabled); [auto|].
+  destruct (authenticate roles_of configured (fst m) ch (snd m)) eqn:A; simpl; auto. intros H. injection H as <-. auto.
+Qed.
+
+(* whatever the order of attempts, an identity held by the connection was proved by a valid answer
+   among the messages it received *)
+Lemma token_from_valid_answer enabled ch ms : forall c t,
+  c_token (fold_left (handle_auth roles_of configured enabled ch) ms c) = Some t ->
+  c_token c = Some t \/
+  exists now ev, In (now, PEvent ev) ms /\ valid_answer now (urls_as_list configured) ch ev /\ t_pubkey t = a_pubkey ev.
+Proof.
+  induction ms as [|m ms IH]; intros c t H; simpl in H; [auto|].
+  destruct (IH _ _ H) as [H1|[now [ev [Hi Hv]]]].
+  - apply handle_auth_token in H1. destruct H1 as [H1|H1]; [auto|].
+    destruct (auth_sound _ _ _ _ H1) as [ev [Hp [Hv [Hk _]]]]. right. exists (fst m), ev.
+    split; [left; destruct m as [n p]; simpl in *; congruence | auto].
+  - right. exists now, ev. split; [right; exact Hi | exact Hv].
+Qed.
+
+(* an answer that authenticates on a connection with challenge ch1 is refused, with
+   "Wrong challenge", on any connection whose challenge differs *)
+Lemma scan_other_challenge l ch1 ch2 tags : ch1 <> ch2 -> forall fr fc fr' fc',
+  scan_tags (UList l) ch1 tags fr fc = (COk, fr', fc') ->
+  (exists t, In t tags /\ tag_named "challenge" t) ->
+  exists a b, scan_tags (UList l) ch2 tags fr fc = (CAuth EWrongChallenge, a, b).
+Proof.
+  intros D. induction tags as [|t r IH]; intros fr fc fr' fc' H [t0 [Hi Tn]]; [destruct Hi|].
+  simpl in H |- *. destruct t as [|n rest]; [discriminate|].
+  destruct (str_eqb n (pys "relay")) eqn:E1.
+  - destruct rest as [|v rest']; [discriminate|]. destruct (auth_url_bad v (UList l)); [discriminate|].
+    destruct Hi as [<-|Hi]; [apply tag_named_cons in Tn; apply str_eqb_eq in E1; subst n; discriminate|].
+    apply (IH _ _ _ _ H). exists t0. auto.
+  - destruct (str_eqb n (pys "challenge")) eqn:E2.
+    + destruct rest as [|v rest']; [discriminate|].
+      destruct (str_eqb v ch1) eqn:V; simpl in H; [|discriminate]. apply str_eqb_eq in V. subst v.
+      replace (str_eqb ch1 ch2) with false by (symmetry; apply str_eqb_neq; exact D). simpl. eauto.
+    + destruct Hi as [<-|Hi]; [apply tag_named_cons in Tn; apply str_eqb_neq in E2; contradiction|].
+      apply (IH _ _ _ _ H). exists t0. auto.
+Qed.
+
+Lemma cross_connection_replay now ch1 ch2 p t :
+  ch1 <> ch2 ->
+  authenticate roles_of configured now ch1 p = Authenticated t ->
+  authenticate roles_of configured now ch2 p = AuthRefused EWrongChallenge.
+Proof.
+  intros D H. destruct (auth_sound _ _ _ _ H) as [ev [-> [V _]]].
+  unfold authenticate in *. rewrite parse_valid_urls_list in *.
+  unfold check_auth_event in *. destruct (a_verify ev); try discriminate.
+  destruct (auth_kind_bad (a_kind ev)); [discriminate|].
+  destruct (auth_is_too_old (auth_since now (a_created ev))); [discriminate|].
+  destruct (auth_is_too_new (auth_since now (a_created ev))); [discriminate|].
+  destruct (scan_tags (UList (urls_as_list configured)) ch1 (a_tags ev) false false) as [[r fr] fc] eqn:S.
+  destruct r; try discriminate.
+  destruct V as (_ & _ & _ & _ & _ & Hc & _).
+  destruct (scan_other_challenge _ _ _ _ D _ _ _ _ S Hc) as [a [b S2]]. rewrite S2. reflexivity.
+Qed.
+End Conn.
+
+(* F19 (fixed in /repo): with relay_urls kept as a str the membership test is a substring test *)
+Definition f19_event : aevent :=
+  {| a_pubkey := pys "k"; a_kind := 22242; a_created := 1000;
+     a_tags := [[pys "relay"; pys "ws"]; [pys "challenge"; pys "c"]]; a_verify := VTrue |}.
+Lemma f19_str_urls_refuted :
+  check_auth_event 1000 default_relay_urls (pys "c") f19_event = COk /\
+  ~ valid_answer 1000 (urls_as_list default_relay_urls) (pys "c") f19_event.
+Proof.
+  split; [reflexivity|]. intros (_ & _ & _ & _ & R & _).
+  destruct (R [pys "relay"; pys "ws"]) as [v [[n [rest E]] Hv]]; [left; reflexivity | exists [pys "ws"]; reflexivity |].
+  injection E as <- <- <-. destruct Hv as [Hv|[]]. vm_compute in Hv. discriminate.
+Qed.
+
+(* the boolean used by the executable statement is the statement *)
+Lemma tag_is_named (n : string) t : tag_is n t = true <-> tag_named n t.
+Proof.
+  destruct t as [|x r]; simpl.
+  - split; [discriminate | intros H; destruct (tag_named_nil n H)].
+  - rewrite str_eqb_eq, tag_named_cons. reflexivity.
+Qed.
+
+Lemma valid_answerb_spec now l ch ev : valid_answerb now l ch ev = true <-> valid_answer now l ch ev.
+Proof.
+  unfold valid_answerb, valid_answer. rewrite !andb_true_iff, existsb_exists, existsb_exists, !forallb_forall.
+  assert (HV : (match a_verify ev with VTrue => true | _ => false end) = true <-> a_verify ev = VTrue)
+    by (destruct (a_verify ev); split; congruence).
+  rewrite HV.
+  assert (HR : (forall x, In x (a_tags ev) ->
+                   negb (tag_is "relay" x) || match x with _ :: v :: _ => mem_str v l | _ => false end = true)
+               <-> (forall t, In t (a_tags ev) -> tag_named "relay" t -> exists v, tag_value t v /\ In v l)).
+  { split; intros H t Ht.
+    - intros Tn. specialize (H t Ht). apply tag_is_named in Tn. rewrite Tn in H. simpl in H.
+      destruct t as [|a [|v r]]; try discriminate. apply mem_str_In in H. exists v. split; [exists a, r; reflexivity | exact H].
+    - destruct (tag_is "relay" t) eqn:E; [|reflexivity]. simpl. apply tag_is_named in E.
+      destruct (H t Ht E) as [v [[n [r ->]] Hv]]. apply mem_str_In. exact Hv. }
+  assert (HC : (forall x, In x (a_tags ev) ->
+                   negb (tag_is "challenge" x) || match x with _ :: v :: _ => str_eqb v ch | _ => false end = true)
+               <-> (forall t, In t (a_tags ev) -> tag_named "challenge" t -> tag_value t ch)).
+  { split; intros H t Ht.
+    - intros Tn. specialize (H t Ht). apply tag_is_named in Tn. rewrite Tn in H. simpl in H.
+      destruct t as [|a [|v r]]; try discriminate. apply str_eqb_eq in H. subst v. exists a, r; reflexivity.
+    - destruct (tag_is "challenge" t) eqn:E; [|reflexivity]. simpl. apply tag_is_named in E.
+      destruct (H t Ht E) as [n [r ->]]. apply str_eqb_refl. }
+  rewrite HR, HC.
+  assert (HE : forall n, (exists x, In x (a_tags ev) /\ tag_is n x = true) <-> (exists t, In t (a_tags ev) /\ tag_named n t)).
+  { intros n. split; intros [t [Ht H]]; exists t; split; try assumption; apply tag_is_named; exact H. }
+  rewrite !HE. rewrite Z.eqb_eq, Z.ltb_lt. tauto.
+Qed.
